@@ -9,9 +9,14 @@ metas = [json.loads(p.read_text()) for p in sorted(V.glob("seeded/*/meta.json"))
 rows = ["| seed | needs, in order to manifest | caught by | run against, not caught |", "|------|------------------------------|-----------|--------------------------|"]
 own = anyc = 0
 notown = []
+neutral = []
 per_round = {}
 for m in metas:
     caught = m.get("caught_by", [])
+    if m.get("status", "").startswith("neutralised"):
+        rows.append(f"| {m['seed']} | {m['needs_to_manifest']} | (no longer manifests: {m['status'].split(':')[0]}; caught by {'; '.join(caught)} before) | - |")
+        neutral.append(m["seed"])
+        continue
     rows.append(f"| {m['seed']} | {m['needs_to_manifest']} | {'; '.join(caught) or '-'} | {'; '.join(m.get('not_caught_by', [])) or '-'} |")
     is_own = any(c.split()[0].rstrip(";,") == m["property"] for c in caught)
     own += is_own
@@ -26,4 +31,4 @@ pat = re.compile(r"\| seed \| needs, in order to manifest \|.*?\n\n", re.S)
 assert pat.search(txt)
 txt = pat.sub(lambda _: "\n".join(rows) + "\n\n", txt, count=1)
 (V / "DESIGN.md").write_text(txt)
-print(f"seeds={len(metas)} caught_by_any={anyc} caught_by_own={own} not_own={notown} per_round(total,own)={per_round}")
+print(f"neutralised={neutral} seeds={len(metas)} caught_by_any={anyc} caught_by_own={own} not_own={notown} per_round(total,own)={per_round}")
